@@ -161,6 +161,11 @@ def end_to_end(chk, tier):
             for third in ('H%d:H%d' % (off + 1, off + h), 'H%d' % (off + 1)):
                 formulas.append('=SUMIF(%s,%s,%s)' % (R(col), text, third))
                 reqs.append('ci sumif %s 1 %s %s %s' % (core.enc(shifted), col_enc(cols[col]), core.enc(rendered), st))
+        if h >= 3:
+            for col, kind, op, val, rendered, text in rng.sample(crit_forms, 4):
+                # a target written with both corners but shorter than the criteria range: it takes the shape of the criteria range from its first cell
+                formulas.append('=SUMIF(%s,%s,H1:H%d)' % (R(col), text, rng.randint(1, h - 1)))
+                reqs.append('ci sumif %s 1 %s %s %s' % (core.enc([[v] for v in tgt2[:h]]), col_enc(cols[col]), core.enc(rendered), struct(kind, op, val)))
         if h >= 4:
             for col, kind, op, val, rendered, text in rng.sample(crit_forms, 6):
                 top = rng.randint(2, h - 1)                         # criteria range rows top..h, whole-column target H:H -> H1..H(h-top+1)
@@ -189,6 +194,14 @@ def end_to_end(chk, tier):
         reqs.append('ci countifs %s 2 %s %s n > I0 %s %s t == %s' % (core.enc([[v] for v in tgt]), col_enc(keys1), core.enc('>0'),
                                                                    col_enc(keys2[:-1]), core.enc('apple'), core.enc('apple')))
         outs = realcode.eval_formulas(formulas, values)
+        # ranges of the same height and different width (row-shaped ranges of 4 and 3 cells): a size error, never a silent alignment
+        wide = ['=SUMIFS(A1:D1,A2:C2,">1")', '=COUNTIFS(A1:D1,">0",A2:C2,">1")', '=AVERAGEIFS(A1:D1,A2:C2,">1")', '=SUMIFS(A1:B2,C1:C2,">1")', '=COUNTIFS(A1:B2,">0",C1:C2,">0")']
+        wo = realcode.eval_formulas(wide, {(0, 0): 1, (1, 0): 2, (2, 0): 3, (3, 0): 4, (0, 1): 5, (1, 1): 0, (2, 1): 5, (3, 1): 0})
+        for f, o in zip(wide, wo):
+            chk.count('law:width-mismatch')
+            chk.seen(('width', b, f))
+            if b == 0 and not o.startswith('E'):
+                chk.violation({'why': 'ranges with the same number of rows but different numbers of cells are not reported as an error', 'formula': f, 'impl': o, 'stream': 'misaligned-width'})
         cases = [(r, o, {'formula': f, 'book': b}) for f, r, o in zip(formulas, reqs, outs)]
         chk.judge('e2e', cases, sample_cap=1)
         # AVERAGEIFS = SUMIFS / COUNTIFS on the real code (numeric targets)
